@@ -136,6 +136,16 @@ pub enum Motif {
         /// drop one element of the cage (0 = complete cage), so that near misses occur too
         drop: u8,
     },
+    /// Castling delivers check along the rook's new file to a king caged by its own men: mate
+    /// when the cage is complete (rooks beside the king cannot interpose), only check in the
+    /// near-miss variants.
+    CastleMate {
+        black: bool,
+        long: bool,
+        /// 0 complete cage; 1 a knight instead of a rook beside the king (it can interpose);
+        /// 2 one cage pawn missing (flight square); 3 a blocker on the file (no check at all)
+        variant: u8,
+    },
     /// King near an edge with a few enemy pieces close by: mates and stalemates.
     Net {
         black: bool,
@@ -252,12 +262,14 @@ fn apply_motif(b: &mut Builder, m: &Motif, h: &mut Hints) {
             let us = side_of(*black);
             let them = us.other();
             let br = us.back_rank();
-            let kf = 1 + (*kf as i32 % 6); // b..g
+            // b..g mostly; the corners a/h too (a king there can still hold one right on an
+            // accepted board although no start position has it)
+            let kf = if *kf as i32 % 8 < 6 { 1 + (*kf as i32 % 6) } else if *kf as i32 % 8 == 6 { 0 } else { 7 };
             b.put(kf, br, Kind::K, us);
             h.stm = Some(us);
             h.rights_fixed[us.idx()] = true;
             // short rook: files kf+1..=7 ; selector 0 = none (1 in 5)
-            if short_sel % 5 != 0 {
+            if short_sel % 5 != 0 && kf < 7 {
                 let n = 7 - kf;
                 // selector class 1: rook on the g-file when possible (pinned-rook geometry h1/g1)
                 let rf = if short_sel % 5 == 1 && kf < 6 { 6 } else { kf + 1 + (*short_sel as i32 / 5) % n };
@@ -265,7 +277,7 @@ fn apply_motif(b: &mut Builder, m: &Motif, h: &mut Hints) {
                     h.rights.push((us, 0, rf as u8));
                 }
             }
-            if long_sel % 5 != 0 {
+            if long_sel % 5 != 0 && kf > 0 {
                 let n = kf;
                 // selector class 1: rook on the b-file when possible (pinned-rook geometry a1/b1)
                 let rf = if long_sel % 5 == 1 && kf > 1 { 1 } else { (*long_sel as i32 / 5) % n };
@@ -685,6 +697,30 @@ fn apply_motif(b: &mut Builder, m: &Motif, h: &mut Hints) {
             // their king far away, off the e-file
             b.put(if *long { 7 } else { 0 }, them.back_rank(), Kind::K, them);
         }
+        Motif::CastleMate { black, long, variant } => {
+            let us = side_of(*black);
+            let them = us.other();
+            h.stm = Some(us);
+            h.rights_fixed[us.idx()] = true;
+            let br = us.back_rank();
+            let far = them.back_rank();
+            let down = them.fwd(); // from their back rank towards the middle
+            let (rf, file) = if *long { (0, 3) } else { (7, 5) }; // rook start, file it lands on
+            b.put(4, br, Kind::K, us);
+            if b.put(rf, br, Kind::R, us) {
+                h.rights.push((us, if *long { 1 } else { 0 }, rf as u8));
+            }
+            b.put(file, far, Kind::K, them);
+            b.put(file - 1, far, if *variant == 1 { Kind::N } else { Kind::R }, them);
+            b.put(file + 1, far, Kind::R, them);
+            b.put(file - 1, far + down, Kind::P, them);
+            if *variant != 2 {
+                b.put(file + 1, far + down, Kind::P, them);
+            }
+            if *variant == 3 {
+                b.put(file, far + 3 * down, Kind::N, them);
+            }
+        }
         Motif::Net { black, ksq, pieces, enemy_k } => {
             let us = side_of(*black);
             let them = us.other();
@@ -818,7 +854,7 @@ pub fn assemble(ing: &Ingredients) -> RawState {
 fn arb_motif() -> impl Strategy<Value = Motif> {
     prop_oneof![
         3 => Just(Motif::None),
-        3 => (any::<bool>(), 0u8..6, any::<u8>(), any::<u8>(), vec((any::<u8>(), 0u8..8, 0u8..7, any::<u8>()), 0..4), vec((0u8..8, any::<u8>(), any::<bool>()), 0..3))
+        3 => (any::<bool>(), 0u8..8, any::<u8>(), any::<u8>(), vec((any::<u8>(), 0u8..8, 0u8..7, any::<u8>()), 0..4), vec((0u8..8, any::<u8>(), any::<bool>()), 0..3))
             .prop_map(|(black, kf, short_sel, long_sel, attackers, blockers)| Motif::Castle { black, kf, short_sel, long_sel, attackers, blockers }),
         3 => (any::<bool>(), 0u8..8, 0u8..9, 0u8..9, 0u8..9, any::<u8>(), any::<u8>(), any::<u8>())
             .prop_map(|(black_mover, file, left, right, king_mode, a, b, c)| Motif::Ep { black_mover, file, left, right, king_mode, a, b, c }),
@@ -836,6 +872,8 @@ fn arb_motif() -> impl Strategy<Value = Motif> {
             .prop_map(|(black, file, capturer_right, dir, dk, ds, with_slider, queen)| Motif::EpStalemate { black, file, capturer_right, dir, dk, ds, with_slider, queen }),
         1 => (any::<bool>(), any::<bool>(), any::<bool>(), 0u8..4, prop_oneof![3 => Just(0u8), 1 => 1u8..4])
             .prop_map(|(black, long, cover_queen, cover_dist, drop)| Motif::CastleOnly { black, long, cover_queen, cover_dist, drop }),
+        1 => (any::<bool>(), any::<bool>(), prop_oneof![2 => Just(0u8), 1 => 1u8..4])
+            .prop_map(|(black, long, variant)| Motif::CastleMate { black, long, variant }),
         1 => (any::<bool>(), any::<bool>(), 0u8..5, 0u8..2, any::<bool>(), 0u8..4)
             .prop_map(|(black, right_corner, d, kf, p3_right, blocker_kind)| Motif::BatteryStalemate { black, right_corner, d, kf, p3_right, blocker_kind }),
         1 => (any::<bool>(), 0u8..6, any::<[u8; 8]>(), vec((any::<u8>(), 0u8..32), 5), 0u8..8)
@@ -952,6 +990,9 @@ pub fn arb_case(w_dfrc: u32, w_seed: u32, w_built: u32, max_ops: usize) -> impl 
                 }
                 if matches!(ing.motif, Motif::Battery { .. } | Motif::BatteryStalemate { .. }) {
                     ops.insert(0, Op::Null);
+                }
+                if matches!(ing.motif, Motif::CastleMate { .. }) && ing.ep_sel & 1 == 0 {
+                    ops.insert(0, Op::Move { sel: ing.fm_raw.wrapping_mul(40503), bias: 2 });
                 }
             }
             PosCase { start, ops }
